@@ -129,14 +129,15 @@ inductive Call
   | eof
   deriving DecidableEq, Repr
 
-/-- `Reader.Read` on the raw line `raw` (terminator included), `lineNo` = `r.line` after the increment -/
-def readLine (n : Nat) (raw : Bytes) (lineNo : Nat) : Call :=
-  match parseBed n (trimSpace raw) with
+/-- `Reader.Read` once `line = bytes.TrimSpace(line)` has been done; `lineNo` = `r.line` after
+    the increment -/
+def readLine (n : Nat) (line : Bytes) (lineNo : Nat) : Call :=
+  match parseBed n line with
   | .ok r => .record r
   | .ret e => .err e lineNo
   | .panic p => .panicked p
 
-/-- successive calls of `Read` until `io.EOF`; a panic ends the list -/
+/-- successive calls of `Read` until `io.EOF` on the trimmed lines; a panic ends the list -/
 def readLines (n : Nat) : List Bytes → Nat → List Call
   | [], _ => [.eof]
   | l :: ls, k =>
@@ -144,7 +145,10 @@ def readLines (n : Nat) : List Bytes → Nat → List Call
     | .panicked p => [.panicked p]
     | c => c :: readLines n ls (k + 1)
 
-def readAll (n : Nat) (bs : Bytes) : List Call := readLines n (lines bs) 0
+/-- the lines as the reader sees them: `ReadBytes('\n')` followed by `bytes.TrimSpace` -/
+def trimmedLines (bs : Bytes) : List Bytes := (lines bs).map trimSpace
+
+def readAll (n : Nat) (bs : Bytes) : List Call := readLines n (trimmedLines bs) 0
 
 /-! ### writer -/
 
